@@ -146,14 +146,23 @@ Inductive engine := EInterp | EAuto.
 Inductive fmt := FGlyf | FCff | FNone.
 Record ocfg := { oc_size : Z; oc_loc : list Z; oc_target : Z; oc_engine : engine; oc_fmt : fmt }.
 
+(* table-driven treatment of the plain fields (size, coords, target) and of `kind` *)
+Definition pick (otbl : list (string * action)) (f : string) (new old : Z) : Z :=
+  match assoc f otbl with Some AAssign | Some AClearFill => new | _ => old end.
+Definition pickl (otbl : list (string * action)) (f : string) (new old : list Z) : list Z :=
+  match assoc f otbl with Some AAssign | Some AClearFill => new | _ => old end.
+Definition taken (otbl : list (string * action)) : bool :=
+  match assoc "kind" otbl with Some ATake => true | _ => false end.
+
 Section Outer.
   Variable run : hcfg -> hstate -> option hstate.
   (* arguments of the inner reconfigure as computed from (outlines, size, effective coords, target) *)
   Variable inner_cfg : ocfg -> list Z -> hcfg.
   Variable cff_subfonts : ocfg -> list Z -> option (list Z).   (* cff.subfont(i, ppem, coords)? for all i *)
   Variable auto_new : ocfg -> list Z -> Z.                     (* autohint::Instance::new *)
-  Variable tbl : list (string * action).
+  Variable tbl : list (string * action).                       (* Gen.setup_table *)
   Variable rf : list string.
+  Variable otbl : list (string * action).                      (* Gen.hinting_instance_table *)
   Variable cleared : bool.                                     (* `subfonts.clear()` present *)
 
   (* pub fn reconfigure(&mut self, outlines, size, location, options) -> Result<(), DrawError>
@@ -161,23 +170,27 @@ Section Outer.
   Definition outer_reconfigure (s : outer) (cfg : ocfg) : bool * outer :=
     let coords := effective_coords (oc_loc cfg) in            (* self.coords.clear(); extend_from_slice(..) *)
     let current := o_kind s in                                (* mem::replace(&mut self.kind, None) *)
-    let mk k := {| o_size := oc_size cfg; o_coords := coords; o_target := oc_target cfg; o_kind := k |} in
+    let none := if taken otbl then KNone else current in
+    let mk k := {| o_size := pick otbl "size" (oc_size cfg) (o_size s);
+                   o_coords := pickl otbl "coords" coords (o_coords s);
+                   o_target := pick otbl "target" (oc_target cfg) (o_target s);
+                   o_kind := k |} in
     match oc_engine cfg, oc_fmt cfg with
     | EInterp, FGlyf =>
         let hi := match current with KGlyf i => i | _ => [] end in
         match reconfigure run tbl rf (inner_cfg cfg coords) hi with
         | Some i' => (true, mk (KGlyf i'))
-        | None => (false, mk KNone)                           (* `?` after self.kind was taken *)
+        | None => (false, mk none)                            (* `?` after self.kind was taken *)
         end
     | EInterp, FCff =>
         let sub := match current with KCff v => v | _ => [] end in
         let sub := if cleared then [] else sub in
         match cff_subfonts cfg coords with
         | Some l => (true, mk (KCff (sub ++ l)))
-        | None => (false, mk KNone)
+        | None => (false, mk none)
         end
-    | EInterp, FNone => (true, mk KNone)
-    | EAuto, FNone => (true, mk KNone)                        (* outlines.font() is None *)
+    | EInterp, FNone => (true, mk none)
+    | EAuto, FNone => (true, mk none)                         (* outlines.font() is None *)
     | EAuto, _ => (true, mk (KAuto (auto_new cfg coords)))
     end.
 End Outer.
